@@ -180,7 +180,68 @@ pub fn with_ctl<R>(f: impl FnOnce(&mut HookCtl) -> R) -> R {
     f(ctl)
 }
 
+pub struct Trigger {
+    from: Point,
+    to: Point,
+    in_phase: bool,
+    nth: u64,
+    seen: u64,
+    fired: bool,
+    gate: Arc<(Mutex<bool>, Condvar)>,
+    published: Arc<AtomicBool>,
+}
+
+static TRIGGER: Mutex<Option<Trigger>> = Mutex::new(None);
+static TRIGGER_ARMED: AtomicBool = AtomicBool::new(false);
+
+/// (reads seen in the phase, fired) of the trigger armed last; disarms it
+pub fn disarm_trigger() -> (u64, bool) {
+    TRIGGER_ARMED.store(false, Ordering::SeqCst);
+    TRIGGER.lock().unwrap().take().map_or((0, false), |t| (t.seen, t.fired))
+}
+
+fn trigger_hook(p: Point) {
+    let fire = {
+        let mut g = TRIGGER.lock().unwrap();
+        let Some(t) = g.as_mut() else { return };
+        if p == t.from {
+            t.in_phase = true;
+            None
+        } else if p == t.to {
+            t.in_phase = false;
+            None
+        } else if t.in_phase
+            && !t.fired
+            && matches!(p, Point::VecGetBeforeBucketLoad | Point::VecGetBeforeActiveLoad | Point::IterBeforeBucketLoad | Point::IterBeforeActiveLoad)
+        {
+            t.seen += 1;
+            if t.seen == t.nth {
+                t.fired = true;
+                Some((t.gate.clone(), t.published.clone()))
+            } else {
+                None
+            }
+        } else {
+            None
+        }
+    };
+    if let Some((gate, published)) = fire {
+        {
+            let (m, cv) = &*gate;
+            *m.lock().unwrap() = true;
+            cv.notify_all();
+        }
+        let deadline = Instant::now() + Duration::from_secs(3);
+        while !published.load(Ordering::SeqCst) && Instant::now() < deadline {
+            std::thread::yield_now();
+        }
+    }
+}
+
 pub fn worker_hook(p: Point) {
+    if TRIGGER_ARMED.load(Ordering::Relaxed) {
+        trigger_hook(p);
+    }
     let Some(slot) = slot_of(p) else {
         // vector / sort points are hit for every item: only rare and short delays there
         if DELAY_ON.load(Ordering::Relaxed) {
@@ -558,6 +619,14 @@ impl World {
     }
 
     // ---------------- restart
+
+    /// `Nucleo::update_config` with the configuration the matcher already has: nothing observable may change
+    /// (a different configuration is outside C06/C07; the call itself is ordinary API use from the ticking thread)
+    pub fn update_config_same(&mut self) {
+        let c = self.config.clone();
+        self.n().update_config(c);
+        self.note("update_config(unchanged configuration)".into());
+    }
 
     pub fn restart(&mut self, clear: bool) {
         // remember what the snapshot looks like: with clear=false it must stay exactly like this
@@ -1019,6 +1088,8 @@ pub struct HeldWriter {
     gate: Arc<(Mutex<bool>, Condvar)>,
     thread: Option<std::thread::JoinHandle<()>>,
     pub in_flight: Arc<AtomicBool>,
+    /// set once the push has returned on the writer's thread
+    pub published: Arc<AtomicBool>,
 }
 
 impl HeldWriter {
@@ -1033,6 +1104,8 @@ impl HeldWriter {
         let reg = w.reg.clone();
         let id = w.alloc_ids(1);
         let (g2, f2) = (gate.clone(), in_flight.clone());
+        let published = Arc::new(AtomicBool::new(false));
+        let pub2 = published.clone();
         let (invoked, completed) = (w.invoked.clone(), w.completed.clone());
         *invoked.lock().unwrap().entry(stream).or_insert(0) += 1;
         let thread = std::thread::spawn(move || {
@@ -1048,6 +1121,7 @@ impl HeldWriter {
                 fill_cols(p.id, cols);
             });
             *completed.lock().unwrap().entry(stream).or_insert(0) += 1;
+            pub2.store(true, Ordering::SeqCst);
             stream_handles_add(&reg, stream, -1);
             drop(inj);
             *aux.lock().unwrap().entry(stream).or_insert(0) -= 1;
@@ -1062,7 +1136,25 @@ impl HeldWriter {
             gate,
             thread: Some(thread),
             in_flight,
+            published,
         }
+    }
+
+    /// arms the trigger: the `nth` read of the item vector (lookup or snapshot iteration step) that any thread performs
+    /// while the background run is between the points `from` and `to` publishes this writer's item, and that read only
+    /// goes on once the item is published
+    pub fn publish_at_nth_read(&self, from: Point, to: Point, nth: u64) {
+        *TRIGGER.lock().unwrap() = Some(Trigger {
+            from,
+            to,
+            in_phase: false,
+            nth,
+            seen: 0,
+            fired: false,
+            gate: self.gate.clone(),
+            published: self.published.clone(),
+        });
+        TRIGGER_ARMED.store(true, Ordering::SeqCst);
     }
 
     pub fn release(&mut self) {
@@ -1237,7 +1329,21 @@ pub fn run_random(opts: &Opts, rep: &mut Report, props: &[&str]) {
                     w.edit(col, &new_text);
                     label = "edit".into();
                 }
-                58..=81 => {
+                58..=60 => {
+                    // configuration "changed" to the same value, usually right after a tick that left a run behind
+                    if rng.chance(3, 4) {
+                        let st = w.tick(0);
+                        rep.count("ticks");
+                        rep.count(&format!("tick.changed={}.running={}", st.changed, st.running));
+                        if st.running {
+                            rep.count("update-config-after-a-tick-that-left-a-run-behind");
+                        }
+                    }
+                    w.update_config_same();
+                    rep.count("update-config-calls");
+                    label = "update_config".into();
+                }
+                61..=81 => {
                     let timeout = *rng.pick(&[0u64, 0, 1, 5, 10, 50]);
                     let inflight = held.iter().filter(|h| h.in_flight.load(Ordering::SeqCst)).count();
                     let st = w.tick(timeout);
